@@ -12,10 +12,11 @@ func init() {
 				{Harness: "vh_C06_reuse", Unroll: 8},
 				{Harness: "vh_C06_defer_args", Unroll: 8},
 				{Harness: "vh_C06_defer_slice", Unroll: 8},
+				{Harness: "vh_C06_defer_bin", Unroll: 8},
 			}
 		},
 		Bounds:      []string{"defer stack of 0..3 entries", "each deferred callee: returns / recovers / panics with a new value", "body: returns or panics", "Execute: root program panics with an arbitrary string value or returns"},
 		Assumptions: []string{"deferred callees are harness closures registered as []reflect.Value{reflect.ValueOf(fn)} (the representation call/callBin/genBuiltinDeferWrapper produce)", "a direct recover() is modelled by its effect f.recovered = nil (what _recover does on f.anc)", "reflect.Value.Call invokes the wrapped function"},
-		Outside:     []string{"registration sites (call, callBin, genBuiltinDeferWrapper): argument evaluation time and prepend order", "which run-time faults become panics", "nested call trees", "interpreter remains usable after a panic"},
+		Outside:     []string{"the registration site of deferred builtins (genBuiltinDeferWrapper)", "which run-time faults become panics", "nested call trees", "interpreter remains usable after a panic"},
 	}
 }
